@@ -1,6 +1,10 @@
 package rpc
 
-import "golang.org/x/net/context"
+import (
+	"io"
+
+	"golang.org/x/net/context"
+)
 
 type task struct {
 	seqid      SeqNumber
@@ -110,7 +114,11 @@ func (r *receiveHandler) receiveCallCompressed(rpc *rpcCallCompressedMessage) er
 
 func (r *receiveHandler) receiveCancel(rpc *rpcCancelMessage) error {
 	r.log.ServerCancelCall(rpc.SeqNo(), rpc.Name())
-	r.taskCancelCh <- rpc.SeqNo()
+	select {
+	case r.taskCancelCh <- rpc.SeqNo():
+	case <-r.stopCh:
+		// The task loop is gone and has canceled every task.
+	}
 	return nil
 }
 
@@ -124,10 +132,20 @@ func (r *receiveHandler) handleReceiveDispatch(req request) error {
 		req.LogInvocation(se)
 		return req.Reply(r.writer, nil, wrapError(wrapErrorFunc, se))
 	}
-	r.taskBeginCh <- &task{req.SeqNo(), req.CancelFunc()}
+	select {
+	case r.taskBeginCh <- &task{req.SeqNo(), req.CancelFunc()}:
+	case <-r.stopCh:
+		// The task loop is gone: nobody would cancel this request's
+		// context anymore, so don't start serving it.
+		req.CancelFunc()()
+		return io.EOF
+	}
 	go func() {
 		req.Serve(r.writer, serveHandler, wrapErrorFunc)
-		r.taskEndCh <- req.SeqNo()
+		select {
+		case r.taskEndCh <- req.SeqNo():
+		case <-r.stopCh:
+		}
 	}()
 	return nil
 }
